@@ -139,6 +139,13 @@ def run_one(I, path_fn, prefix, arg, stats):
     except z3.Z3Exception as e:
         res.status = 'unsupported'
         res.detail = 'z3: ' + str(e)
+    except (KeyboardInterrupt, SystemExit):
+        raise
+    except BaseException as e:      # engine bug / recursion / memory: never a pass, and never escapes a forked child
+        res.status = 'unsupported'
+        res.detail = 'internal error: %s: %s' % (type(e).__name__, str(e)[:200])
+        if os.environ.get('MSYM_TRACE'):
+            traceback.print_exc()
     res.decisions = w.decisions
     res.notes = list(set(w.notes))
     return res, w.alts
@@ -160,6 +167,7 @@ class Forker:
         self.max_sync = int(os.environ.get('MSYM_SYNC_DEPTH', '48'))
         self.holds_slot = False
         self.crashed = 0
+        self.deadline = None
 
     def try_fork(self):
         """returns True in the new child, False in the parent / when not forking"""
@@ -253,18 +261,30 @@ def explore_subtree(I, path_fn, prefix, arg, budget, stats, on_panic=None):
     os.makedirs(FORK.dir, exist_ok=True)
     work = [prefix]
     results = []
-    while work and (len(results) < budget or FORK.child_mode):
-        p = work.pop()
-        res, alts = run_one(I, path_fn, p, arg, stats)
-        if FORK.just_forked:
-            # we are a freshly forked child: our own subtree only
-            FORK.just_forked = False
-            results = []
-            work = []
-        if res.status == 'panic' and on_panic is not None:
-            on_panic(I, res)
-        results.append(res)
-        work.extend(alts)
+    try:
+        while work and (len(results) < budget or FORK.child_mode):
+            if FORK.deadline and time.time() > FORK.deadline:
+                tr = PathResult()
+                tr.status = 'timeout'
+                tr.detail = '%d unexplored prefix(es) dropped at the deadline' % len(work)
+                results.append(tr)
+                work = []
+                break
+            p = work.pop()
+            res, alts = run_one(I, path_fn, p, arg, stats)
+            if FORK.just_forked:
+                # we are a freshly forked child: our own subtree only
+                FORK.just_forked = False
+                results = []
+                work = []
+            if res.status == 'panic' and on_panic is not None:
+                on_panic(I, res)
+            results.append(res)
+            work.extend(alts)
+    except BaseException:
+        if FORK.child_mode or FORK.just_forked:
+            os._exit(3)
+        raise
     if FORK.child_mode:
         FORK.finish_child(results, stats)
     extra, sts = FORK.collect()
@@ -338,6 +358,8 @@ class Exploration:
             self.vcount[k] = self.vcount.get(k, 0) + 1
             if self.vcount[k] <= 25:
                 self.violations.append(v)
+        if res.status == 'timeout':
+            self.incomplete = True
         if res.status == 'unsupported':
             self.unsupported[res.detail] = self.unsupported.get(res.detail, 0) + 1
         if res.status == 'panic':
@@ -363,6 +385,7 @@ def explore(fn_module, fn_name, args, jobs=None, budget=40, max_paths=None, dead
     """explore path_fn for every arg in args (each arg = one harness configuration).  Parallel over a pool."""
     t0 = time.time()
     ex = Exploration()
+    FORK.deadline = deadline
     jobs = jobs or int(os.environ.get('MSYM_JOBS', '0')) or min(16, os.cpu_count() or 1)
     tasks = [([], a, budget) for a in args]
     if FORK.sem is None:
